@@ -21,7 +21,7 @@ from vcheck import coq_bytes, coq_list, ROOT
 
 FUEL = 300
 CORE_VARS = ["x", "y", "z", "v", "i", "j"] + ["w%d" % i for i in range(1, 13)]
-ABORTS = ["AFuel", "AUnsupported", "ABadCount", "ABadStatus", "AReturnOutside", "ABreakInCond", "AEmptyCond", "ASetInIgnored", "ANegatedInSubshell"]
+ABORTS = ["AFuel", "AUnsupported", "ABadCount", "ABadStatus", "AReturnOutside", "ABreakInCond", "AEmptyCond", "ASetInIgnored", "ANegatedInSubshell", "AErrexitInSubst", "APipeLastStage", "ASubstStatus"]
 
 # known-finding classes decided on the SOURCE TEXT of a program (search leg; Go twin of the Sem aborts
 # where they overlap).  Each names one mechanism.
@@ -83,7 +83,7 @@ Definition vars_agree (m g : list (str * str)) : bool :=
   forallb (fun n => optstr_eqb (lookup n m) (lookup n g)) names.
 Definition abort_num (a : abort) : N :=
   match a with AFuel => 1 | AUnsupported => 2 | ABadCount => 3 | ABadStatus => 4 | AReturnOutside => 5
-  | ABreakInCond => 6 | AEmptyCond => 7 | ASetInIgnored => 8 | ANegatedInSubshell => 9 end.
+  | ABreakInCond => 6 | AEmptyCond => 7 | ASetInIgnored => 8 | ANegatedInSubshell => 9 | AErrexitInSubst => 10 | APipeLastStage => 11 | ASubstStatus => 12 end.
 (* per case: 1 flags stuck | 2 flags<>go | 4 sem<>bash | 8 flags<>sem | 16*abort reason *)
 Definition judge (c : prog * (str * N * list (str * str)) * (str * N) * (bool * bool)) : N :=
   let '(p, (gout, gst, gvars), (bout, bst), (have_go, have_bash)) := c in
@@ -201,6 +201,10 @@ WITNESSES = [
     ("core_ABadCount", "for i in 1 2; do echo $i; break 1 2; echo x; done; echo s=$?"),
     ("core_ASetInIgnored", "! { set -e; false; }; echo after $?"),
     ("core_ANegatedInSubshell", "set -e; ( ! { false; echo a; } ); echo after $?"),
+    ("core_AErrexitInSubst", 'set -e; echo "$( false; echo hi )"'),
+    ("core_APipeLastStage", 'true | x=5; echo "$x"'),
+    ("core_ASubstStatus", 'echo "$( false )" "$?"'),
+    ("core_ASubstStatus", 'for i in "$( false )"; do echo "$?"; done'),
 ]
 
 
